@@ -11,8 +11,10 @@ static void one(const uint8_t *ad, size_t adlen, const uint8_t *m, size_t mlen, 
     size_t clen = mlen + 16;
     uint8_t *exp = hx_buf(clen);
     ref_aead_encrypt(alg, key, nonce, ad, adlen, m, mlen, exp);
-    const uint8_t *adp = adlen ? ad : 0;   /* NULL for empty optional input */
     char kb[64];
+    /* an empty associated data string is given once as NULL and once as a valid pointer with length 0 */
+    for (int nv = 0; nv < (adlen ? 1 : 2); nv++) {
+    const uint8_t *adp = adlen ? ad : (nv ? ad : 0);
     for (int entry = 0; entry < 7; entry++) {
         uint8_t *c = hx_buf(clen);
         size_t got = (size_t)-1;
@@ -62,6 +64,7 @@ static void one(const uint8_t *ad, size_t adlen, const uint8_t *m, size_t mlen, 
         }
         if (!hx_buf_ok(c, clen)) hx_fail(kb, "wrote outside output buffer adlen=%zu mlen=%zu pat=%s", adlen, mlen, pat);
         hx_free(c);
+    }
     }
     if (adlen + mlen > 0) hx_stat("nontrivial_shapes", 1);
     hx_free(exp);
